@@ -820,3 +820,51 @@ package core
 //@   also-modifies addRejected
 //@ func (*IndexedState).Add
 //@   ensures[C02.ix_rejected_Add_keeps_index] addRejected ==> forall(t, string, forall(j, string, old(hasEntry(s.FactIndex, t, j)) ==> hasEntry(s.FactIndex, t, j)))
+
+// ---- C01: rule index and rule cache coherence, dispatch --------------------------------------
+// The trie (PatternIndex) is opaque: its Add/Rem/Search are observed through ghost records only.
+//@ ghost piAddedId string
+//@ ghost piRemovedId string
+//@ ghost piRemovedPat map[string]interface{}
+//@ ghost unindexedId string
+//@ ghost unindexedRule map[string]interface{}
+//@ func (*PatternIndex).AddPatternMap
+//@   ghost-ensures piAddedId == id
+//@   also-modifies piAddedId
+//@ func (*PatternIndex).RemPatternMap
+//@   ghost-ensures piRemovedId == id && piRemovedPat == pattern
+//@   also-modifies piRemovedId, piRemovedPat
+//@ func (*IndexedState).unindexRule
+//@   ghost-ensures unindexedId == id && unindexedRule == rule
+//@   also-modifies unindexedId, unindexedRule, piRemovedId, piRemovedPat
+//@ func (*IndexedState).indexRule
+//@   assert[C01.index_under_the_rule_id] at "s.RuleIndex.AddPatternMap(ctx, m, id)": true
+
+//@ define storedRule(s, id) = s.IdToFact[id]["rule"].(map[string]interface{})
+//@ define storesRule(s, id) = has(s.IdToFact, id) && has(s.IdToFact[id], "rule") && is(s.IdToFact[id]["rule"], map[string]interface{})
+
+// Replacing or removing a stored rule removes ITS pattern from the rule index first.
+//@ func (*IndexedState).add
+//@   assume-entry unindexedId == "?none"
+//@   assert[C01.replace_unindexes_the_stored_rule] at "s.IdToFact[id]": storesRule(s, id) ==> unindexedId == id
+//@   assert[C01.replace_unindexes_stored_pattern]  at "s.unindexRule(ctx, id, oldRule)": storesRule(s, id) && oldRule == storedRule(s, id)
+//@ func (*IndexedState).rem
+//@   assume-entry unindexedId == "?none"
+//@   assert[C01.remove_unindexes_the_stored_rule] at "s.FactIndex.RemIdTerms(ctx, ExtractTerms(ctx, fact), id)": old(storesRule(s, id)) ==> unindexedId == id && unindexedRule == old(storedRule(s, id))
+
+// The parsed-rule cache is invalidated whenever the id is (re)written or removed.
+//@ func (*IndexedState).Add
+//@   assert[C01.ix_add_invalidates_cached_rule] at "s.add(ctx, id, x)": !has(s.cachedRules, id)
+//@ func (*IndexedState).rem
+//@   assert[C01.ix_rem_invalidates_cached_rule] at "s.FactIndex.RemIdTerms(ctx, ExtractTerms(ctx, fact), id)": !has(s.cachedRules, id)
+//@ func (*LinearState).Add
+//@   assert[C01.lin_add_invalidates_cached_rule] at "PrepareFact(ctx, id, x)": !has(s.cachedRules, id)
+//@ func (*LinearState).rem
+//@   assert[C01.lin_rem_invalidates_cached_rule] at "s.store.Remove(ctx, s.Name, []byte(id))": !has(s.cachedRules, id)
+
+// Dispatch: a rule is evaluated only if present, matched against ITS OWN when-pattern, with the bindings that match produced.
+//@ func (*IndexedState).doFindRules
+//@   assert[C01.ix_candidates_must_be_stored] at "acc[id]": ok
+//@ func (*FindRules).Do
+//@   assert[C01.dispatch_matches_the_rules_own_pattern] at "Matches(ctx, eventPattern, w.Event)": eventPattern == rule.When.Pattern
+//@   assert[C01.dispatch_only_matching_rules] at "append(w.Children, child)": len(bss) > 0
